@@ -17,6 +17,7 @@ package robytes
 import (
 	"bytes"
 	"unicode"
+	"unicode/utf8"
 
 	"github.com/samber/ro"
 )
@@ -26,12 +27,22 @@ func words(str []byte) [][]byte {
 	// example: Int8Value => Int 8Value => Int 8 Value
 	str = splitNumberLetterReg.ReplaceAll(str, []byte("$1 $2"))
 	var result bytes.Buffer
-	for _, r := range str {
-		if unicode.IsLetter(rune(r)) || unicode.IsDigit(rune(r)) {
-			result.WriteByte(r)
+	// Character by character, as the string flavour does: a single byte of a multi-byte
+	// character is neither a letter nor a digit. Bytes that do not decode are still
+	// classified one by one.
+	for i := 0; i < len(str); {
+		r, size := utf8.DecodeRune(str[i:])
+		if r == utf8.RuneError && size <= 1 {
+			r, size = rune(str[i]), 1
+		}
+
+		if unicode.IsLetter(r) || unicode.IsDigit(r) {
+			result.Write(str[i : i+size])
 		} else {
 			result.WriteByte(' ')
 		}
+
+		i += size
 	}
 	return bytes.Fields(result.Bytes())
 }
